@@ -105,6 +105,9 @@ func (tmp *tmpfile) Write(b []byte) (int, error) {
 
 func (tmp *tmpfile) cleanup() {
 	tmp.f.Close()
+	// not renamed into place (refused or failed upload): do not leave it
+	// behind in the temp directory
+	os.Remove(tmp.f.Name())
 }
 
 func (tmp *tmpfile) File() *os.File {
